@@ -28,6 +28,14 @@ const cl = "server/commitlog."
 func runC01(c *eng.Ctx) {
 	c.Rule("R01.16", "K1")
 	ruleEmptyBatchIsANoOp(c)
+	c.Rule("R01.17", "K1")
+	ruleNullMarkerExactlyForNil(c)
+	c.Rule("R01.8", "K5")
+	ruleRecoveredBookkeepingPairs(c)
+	c.Rule("R05.1", "K2")
+	ruleLogThenIndex(c)
+	c.Rule("R05.3", "K2")
+	ruleReplaceOrdering(c)
 	c.Rule("R03.15", "K3")
 	ruleAppendsWakeParkedCommittedReaders(c)
 	c.Rule("R01.1", "K5")
